@@ -33,7 +33,9 @@ META = {
             "behind a failing request); thorough adds keyboard-interactive, info responses, signed publickey "
             "requests, an unknown method, a third user (alice, bob, empty name) and longer bursts. The canonical "
             "state carries, next to the server's own fields, the harness's count of failed attempts seen on the "
-            "wire, so histories in which the server's counter drifts from the wire are explored separately.",
+            "wire, and the user name the reference model has pinned (first name requested, whatever kind of answer the "
+            "request got), so histories in which the server's counter drifts from the wire or the server's pinned "
+            "name drifts from the first requested name are explored separately.",
     "note": "failed attempts are counted on the wire (non-partial USERAUTH_FAILURE sent by the server); server "
             "application answers are scripted per packet; server side is unmodified paramiko",
     "design_ref": "4/C16",
@@ -104,7 +106,11 @@ DEAD_PROBES = [req("alice", SC, PW, "S"), req("bob", SC, PW, "S"), req(EMPTY, SC
 # USERAUTH_FAILURE messages) and whether USERAUTH_SUCCESS was sent.  On a conforming server these are
 # functions of the other fields (no extra states); when the implementation's counter drifts from the wire
 # (reset, double count, ...) the drifted histories are NOT merged with the honest ones and are explored up to
-# the cap.  Ended connections (transport
+# the cap.  The same for the pinned user name: the key carries the name the REFERENCE MODEL has pinned after the
+# history (first user named by a request, whatever kind of answer it got) next to the server's auth_username;
+# a server that "forgets" to pin after some kind of answer (PK_OK, query, partial, ...) reaches a state
+# (server: nobody, model: alice) that is not merged with the initial state and is expanded with the whole
+# alphabet.  Ended connections (transport
 # thread has left run()) have no future; they are kept apart by cause (disconnect reason code, cap
 # reached) only so that clause D is exercised on each of them.
 def canon(obs):
@@ -116,8 +122,8 @@ def canon(obs):
                 if t[0] == 1:
                     code = t[1]
         return ("dead", code, max(o["fails"], wire_failures(obs)) >= R.FAIL_CAP, o["exc"])
-    return ("alive", o["ah_authed"], o["user"], o["fails"], wire_failures(obs), wire_success(obs),
-            o["expected"], o["handler"])
+    return ("alive", o["ah_authed"], o["user"], o.get("m_user"), o["fails"], wire_failures(obs),
+            wire_success(obs), o["expected"], o["handler"])
 
 
 def wire_failures(obs):
@@ -230,7 +236,16 @@ def judge(hist, obs, acc):
 
 
 def run(hist):
-    return A.run_history(hist, gss=False)
+    obs = A.run_history(hist, gss=False)
+    # the harness's own view of "the user name this connection is pinned to" (reference model: the name of the
+    # first well-formed request, whatever the server answered - PK_OK, a query, partial success, failure);
+    # part of the canonical state, see canon()
+    m = R.Model(enforce_cap=True)
+    obs[0]["m_user"] = None
+    for ev, o in zip(hist, obs[1:]):
+        m.step(ev)
+        o["m_user"] = m.user
+    return obs
 
 
 def make_enabled(tier):
